@@ -109,7 +109,8 @@ pub fn dispatch(name: &str, args: &[&str]) -> Option<String> {
             let mut text = unhex_str(args[0]).replace("@FIX@", &fix);
             // minimal origins for proxy routes and WebSocket targets: @UP@ answers every request with 200 "UPSTREAM", @UPk@
             // (k = 0..15) with 200 "UPk", and closes
-            let mut tokens: Vec<(String, String)> = vec![("@UP@".to_string(), "UPSTREAM".to_string())];
+            // @UPE@ answers with the very bytes of the request head it received (what the proxy forwarded)
+            let mut tokens: Vec<(String, String)> = vec![("@UP@".to_string(), "UPSTREAM".to_string()), ("@UPE@".to_string(), "\u{0}ECHO".to_string())];
             for k in 0..16 {
                 tokens.push((format!("@UP{}@", k), format!("UP{}", k)));
             }
@@ -133,7 +134,13 @@ pub fn dispatch(name: &str, args: &[&str]) -> Option<String> {
                                     Ok(n) => buf.extend_from_slice(&tmp[..n]),
                                 }
                             }
-                            let _ = s.write_all(format!("HTTP/1.1 200 OK\r\nContent-Length: {}\r\n\r\n{}", ident.len(), ident).as_bytes());
+                            if ident == "\u{0}ECHO" {
+                                let mut out = format!("HTTP/1.1 200 OK\r\nContent-Length: {}\r\n\r\n", buf.len()).into_bytes();
+                                out.extend_from_slice(&buf);
+                                let _ = s.write_all(&out);
+                            } else {
+                                let _ = s.write_all(format!("HTTP/1.1 200 OK\r\nContent-Length: {}\r\n\r\n{}", ident.len(), ident).as_bytes());
+                            }
                         });
                     }
                 });
